@@ -62,6 +62,9 @@ pub enum Src {
   Timer(u64),
   /// interval / timer on the default scheduler: they run on (and block) the subscribing thread
   IntervalDefault(u64),
+  /// periods in microseconds (not a whole number of milliseconds)
+  IntervalUs(u64),
+  TimerUs(u64),
   TimerDefault(u64),
 }
 
@@ -319,6 +322,8 @@ pub fn src_name(s: &Src) -> &'static str {
     Src::Interval(_) => "interval",
     Src::Timer(_) => "timer",
     Src::IntervalDefault(_) => "interval_default",
+    Src::IntervalUs(_) => "interval_us",
+    Src::TimerUs(_) => "timer_us",
     Src::TimerDefault(_) => "timer_default",
   }
 }
